@@ -60,7 +60,16 @@ impl Obs {
     }
     pub fn sample(&mut self, s: impl Into<String>) {
         if self.samples.len() < self.max_samples {
-            self.samples.push(s.into());
+            let mut s: String = s.into();
+            if s.len() > 700 {
+                let mut k = 700;
+                while !s.is_char_boundary(k) {
+                    k -= 1;
+                }
+                s.truncate(k);
+                s.push_str(" ...");
+            }
+            self.samples.push(s);
         }
     }
     /// Report a violation. Only the first occurrence of each (prop, sig) is printed in full.
